@@ -22,6 +22,9 @@
 
 namespace stack {
 
+// seam in peripheral_latency.hpp (reset_connection_state): the value the connection event counter starts with
+inline std::uint16_t g_initial_event_counter = 0;
+
 using bluetoe::link_layer::read_buffer;
 using bluetoe::link_layer::write_buffer;
 using bluetoe::link_layer::delta_time;
